@@ -371,6 +371,17 @@ def worker_main(argv):
                 fo = summ.setdefault("foreign", {})
                 key = f"{v.get('property')}:{v['class']}"
                 fo[key] = fo.get(key, 0) + 1
+                if fo[key] == 1:
+                    # keep the first scenario of each kind (un-minimised) for inspection / replay by hand
+                    try:
+                        d = os.path.join(OUT, "foreign", prop)
+                        os.makedirs(d, exist_ok=True)
+                        with open(os.path.join(d, f"{v['class'].replace(':', '_')}-{i}.json"), "w") as f:
+                            json.dump({"property": prop, "engine": ENGINES[prop], "tier": tier,
+                                       "hashseed": os.environ.get("PYTHONHASHSEED"), "scenario": sc,
+                                       "violation": v, "event_digest": res.get("digest"), "index": i}, f)
+                    except OSError:
+                        pass
                 continue
             if v["class"] in seen_classes:
                 continue
